@@ -4,6 +4,8 @@ pub mod c03;
 pub mod c04;
 pub mod c06c10;
 pub mod c09;
+pub mod c08cursor;
+pub mod c08panic;
 pub mod c12;
 pub mod c13conc;
 pub mod c14;
